@@ -6,7 +6,7 @@ import sys, os, json, random, inspect, importlib.util, tempfile, shutil, asyncio
 import _checker_common as K
 
 ANN_POOL = ['int', 'int', 'str', 'float', 'bool', 'List[int]', 'list[int]', 'Dict[str, int]', 'Optional[int]', 'Union[int, str]',
-            'Tuple[int, str]', 'Tuple[int, ...]', 'Set[int]', 'P', 'Any', 'Iterable[int]', 'Sequence[str]', 'int | None',
+            'Tuple[int, str]', 'Tuple[int, ...]', 'Set[int]', 'P', 'Any', 'Iterable[int]', 'Iterable[int]', 'Optional[Iterable[int]]', 'Sequence[str]', 'int | None',
             'Literal[1, 2]', 'Type[P]', 'None']
 BARE_POOL = ['list', 'List', 'dict', 'Dict', 'set', 'Set', 'frozenset', 'FrozenSet', 'tuple', 'Tuple', 'type', 'Type', 'Callable', 'Iterable', 'Sequence']
 RET_POOL = ['int', 'str', 'None', 'None', 'List[int]', 'Optional[int]', 'P', 'Any', 'bool', 'Tuple[int, str]']
@@ -38,7 +38,7 @@ def lit_src(r, ann):
     table = {'int': ['5', '0'], 'str': ["'d'", "''"], 'float': ['1.5'], 'bool': ['True', 'False'], 'List[int]': ['[1, 2]', '[]'], 'list[int]': ['[1]'],
              'Dict[str, int]': ["{'a': 1}", '{}'], 'Optional[int]': ['None', '3'], 'Union[int, str]': ['1', "'u'"], 'Tuple[int, str]': ["(1, 'a')"],
              'Tuple[int, ...]': ['(1, 2)', '()'], 'Set[int]': ['{1}'], 'P': [], 'Any': ['None', '1'], 'Iterable[int]': ['[1]', '(1,)'],
-             'Sequence[str]': ["['a']", "'ab'"], 'int | None': ['None', '7'], 'Literal[1, 2]': ['1', '2'], 'Type[P]': ['P', 'C1'], 'None': ['None']}
+             'Sequence[str]': ["['a']", "'ab'"], 'Optional[Iterable[int]]': ['None', '[1]'], 'int | None': ['None', '7'], 'Literal[1, 2]': ['1', '2'], 'Type[P]': ['P', 'C1'], 'None': ['None']}
     good = table.get(ann, [])
     if good and r.random() < 0.8:
         return r.choice(good), True
@@ -70,8 +70,19 @@ def gen_callable(r, idx, profile='mixed'):
     star_ann = r.choice(['int', 'int', 'str', None, 'list', 'List[int]']) if star else None
     dstar_ann = r.choice(['int', 'str', None, 'dict', 'Optional[int]']) if dstar else None
     kwonly = []
-    if star and r.random() < 0.3:
-        kwonly.append(('k0', r.choice(ANN_POOL), r.choice([None, '5'])))
+    if r.random() < (0.3 if star else 0.15):          # keyword-only parameters: after *args or after a lone `*`
+        for j in range(r.randint(1, 2)):
+            if profile == 'incomplete' and r.random() < 0.5:
+                ann = r.choice([None] + BARE_POOL)
+            else:
+                x = r.random()
+                ann = r.choice(ANN_POOL) if x < 0.9 else (None if x < 0.95 else r.choice(BARE_POOL))
+            kwonly.append((f'k{j}', ann, r.choice([None, None, lit_src(r, ann)[0] if ann is not None else '5'])))
+    posonly = 0                                        # positional-only parameters (before `/`): only reachable where positional calls are allowed
+    if params and kind == 'dunder_class' and r.random() < 0.4:
+        posonly = r.randint(1, len(params))
+        if any(d is not None for (_, _, d) in params[:posonly]) and any(d is None for (_, _, d) in params[posonly:]):
+            posonly = 0
     ret = r.choice(RET_POOL) if r.random() < 0.93 else (None if r.random() < 0.6 else r.choice(BARE_POOL))
     if profile == 'incomplete' and r.random() < 0.25:
         ret = r.choice([None] + BARE_POOL)
@@ -90,15 +101,19 @@ def gen_callable(r, idx, profile='mixed'):
 
     def sig(first):
         parts = [first] if first else []
-        for (pn, ann, d) in params:
+        for i, (pn, ann, d) in enumerate(params):
             s = pn + (f': {ann}' if ann else '')
             if d is not None:
                 s += ' = ' + d
             parts.append(s)
+            if posonly and i == posonly - 1:
+                parts.append('/')
         if star:
             parts.append('*args' + (f': {star_ann}' if star_ann else ''))
+        elif kwonly:
+            parts.append('*')
         for (pn, ann, d) in kwonly:
-            parts.append(pn + f': {ann}' + (f' = {d}' if d is not None else ''))
+            parts.append(pn + (f': {ann}' if ann else '') + (f' = {d}' if d is not None else ''))
         if dstar:
             parts.append('**kwargs' + (f': {dstar_ann}' if dstar_ann else ''))
         return ', '.join(parts)
@@ -247,7 +262,7 @@ def fresh(term):
     return term, K.build_val(term)
 
 
-def gen_call(r, F, desc, style=None):
+def gen_call(r, F, desc, style=None, bad_range=8, hot=()):
     """abstract call: positional value terms (beyond the implicit self/cls) and keyword value terms"""
     raw_params = [p for p in desc['params'] if K.name_of(p['name']) not in ('self', 'cls')] if not desc['isBound'] else list(desc['params'])
     raw_params = [p for p in raw_params if K.name_of(p['name']) != 'self']
@@ -260,8 +275,8 @@ def gen_call(r, F, desc, style=None):
     if style is None:
         style = r.choice(['kw'] * 6 + ['pos1', 'pos1', 'pos2', 'posall'])
     k = {'kw': 0, 'pos1': 1, 'pos2': 2, 'posall': len(plain)}[style]
-    k = min(k, len(plain))
-    bad_at = r.randrange(0, 8)      # position of a deliberately wrong value (most calls have none)
+    k = min(max(k, sum(1 for p in plain if p['kind'] == 'po')), len(plain))      # positional-only parameters cannot be passed by name
+    bad_at = r.randrange(0, bad_range)      # position of a deliberately wrong value (most calls have none)
     pos, kw = [], []
     slot = 0
 
@@ -296,7 +311,10 @@ def gen_call(r, F, desc, style=None):
         own = {K.name_of(p['name']) for p in desc['params']}
         # keys of **kwargs: also the names other callables use for their named parameters (state kept between calls must not leak)
         pool = [n for n in ('x0', 'x1', 'p0', 'p1', 'p2', 'k0') if n not in own]
-        for key in r.sample(pool, min(len(pool), r.randint(0, 2))):
+        keys = r.sample(pool, min(len(pool), r.randint(0, 2)))
+        if hot and r.random() < 0.8:
+            keys = list(dict.fromkeys([n for n in hot if n not in own][:2] + keys))[:3]
+        for key in keys:
             kw.append([K.nid(key), value_for(dstar_ann)])
     if r.random() < 0.03:
         kw.append([K.nid('zz'), K.lit(1)])       # surplus keyword
@@ -452,6 +470,11 @@ def execute(P, F, acc, pos, kw, body):
             script = ('ret', K.build_val(body[1]))
         out, res, journal = run_one(target, pos_objs, kw_objs, hook, script, coroutine)
         caller_objs = pos_objs + list(kw_objs.values())
+        remaining = {}      # how many items every one-shot iterator argument still holds after the call (the scripted body never iterates)
+        for i, o in enumerate(caller_objs):
+            if isinstance(o, collections.abc.Iterator):
+                try: remaining[str(i)] = len(list(o))
+                except Exception as e: remaining[str(i)] = 'exc:' + type(e).__name__
         got = [i for i in received_ids(journal, caller_objs) if meaningful(caller_objs[i])]
         mean = [i for i, o in enumerate(caller_objs) if meaningful(o)]
         if out == 'RET':
@@ -463,11 +486,18 @@ def execute(P, F, acc, pos, kw, body):
             for name, v in journal[0][1].items():
                 ids = [i for i, o in enumerate(caller_objs) if o is v and meaningful(o)]
                 binding[name] = ids[0] if ids else None
-        return {'out': out, 'ran': len(journal), 'got': got, 'meaningful': mean, 'binding': binding}
+        return {'out': out, 'ran': len(journal), 'got': got, 'meaningful': mean, 'binding': binding, 'remaining': remaining}
     d = one(P.mod, P.hook)
     t = one(P.twin, P.twin_hook)
-    return {'out': d['out'], 'ran': d['ran'], 'got': d['got'], 'meaningful': d['meaningful'], 'binding': d['binding'],
-            'twin': {'out': t['out'], 'ran': t['ran'], 'binding': t['binding']}}
+    return {'out': d['out'], 'ran': d['ran'], 'got': d['got'], 'meaningful': d['meaningful'], 'binding': d['binding'], 'remaining': d['remaining'],
+            'twin': {'out': t['out'], 'ran': t['ran'], 'binding': t['binding'], 'remaining': t['remaining']}}
+
+
+def iterator_items(case):
+    """per caller argument that is a one-shot iterator: the number of items it was built with"""
+    x = case['x']
+    terms = list(x['pos']) + [v for _, v in x['kwv']]
+    return {str(i): len(t[2]) for i, t in enumerate(terms) if t[0] == 'iterator'}
 
 
 def build_cases(rng, n_callables, calls_per=4, profile='mixed', style=None, tag='b'):
@@ -517,6 +547,20 @@ class OneProgram(Programs):
         self.twin = load_module(self.twin_path, f'gentwin_{tag}', self.twin_hook)
 
 
+def apply_pre(P, pre):
+    """an operation between two calls of a scenario, applied to the decorated module and its twin alike"""
+    if not pre:
+        return
+    if pre[0] == 'append':                       # a mutable default object is mutated in place
+        for mod in (P.mod, P.twin):
+            getattr(mod, pre[1]).append(K.build_val(pre[2]))
+    elif pre[0] == 'setitem':
+        for mod in (P.mod, P.twin):
+            getattr(mod, pre[1])[K.build_val(pre[2])] = K.build_val(pre[3])
+    else:
+        raise ValueError(pre)
+
+
 def run_impl_calls(cases):
     out = []
     for n, c in enumerate(cases):
@@ -526,11 +570,123 @@ def run_impl_calls(cases):
             continue
         P = OneProgram(x['src'], x['twin'], f'r{n}_{os.getpid()}')
         try:
+            for h in x.get('history', []):       # a scenario case: replay the calls that preceded it on a fresh module
+                apply_pre(P, h.get('pre'))
+                execute(P, {'flavour': h['flavour'], 'kind': h['kind']}, tuple(h['access']), h['pos'], h['kwv'], h['body'])
+            apply_pre(P, x.get('pre'))
             F = {'flavour': x['flavour'], 'kind': x['kind']}
             out.append(execute(P, F, tuple(x['access']), x['pos'], x['kwv'], x['body']))
         finally:
             P.close()
     return out
+
+
+# ------------------------------------------------------------------ scenarios: several calls on one fresh module (state kept between calls)
+
+SIG_TEMPLATES = ['p0: int', 'p0: int, *args: int', 'p0: int = 5', 'p0: str', "p0: int, p1: str = 'd'", '*args: int', '**kwargs: int',
+                 'p0: List[int]', 'p0: str, **kwargs: int', 'p0: int, *args: str, **kwargs: int', '', 'p1: int, p0: str', 'p0: int, *, k0: int = 5',
+                 'p0', 'p0: list', '*args', 'p0: int, **kwargs']
+MUT_TEMPLATES = [('List[int]', '[1]', ['append', None, ["lit", ["str", [120]]]]), ('List[int]', '[]', ['append', None, ["lit", ["none"]]]),
+                 ('Dict[str, int]', "{'a': 1}", ['setitem', None, ["lit", ["str", [98]]], ["lit", ["str", [99]]]]),
+                 ('Dict[str, int]', '{}', ['setitem', None, ["lit", ["int", 1]], ["lit", ["int", 1]]]),
+                 ('list[int]', '[2]', ['append', None, ["lit", ["flt", 3, 2]]]), ('Sequence[int]', '[1, 2]', ['append', None, ["lit", ["str", [120]]]]),
+                 ('Optional[List[int]]', '[1]', ['append', None, ["lit", ["str", [120]]]]), ('List[int]', '[1]', ['append', None, ["lit", ["int", 2]]])]
+
+
+def gen_scenario(r, idx):
+    """{'src', 'twin', 'callables': [(access, kind, flavour)], 'steps': [(callable index, pre)]}"""
+    kind = r.choice(['samename', 'samename', 'mutdefault', 'sharedkw'])
+    deco = r.choice(['@pedantic', '@pedantic', '@require_kwargs'])
+    flav = r.choice(['sync'] * 4 + ['coroutine'])
+    d = 'async def' if flav == 'coroutine' else 'def'
+    ret = r.choice([' -> int', ' -> int', ' -> None', ' -> str'])
+    k = 'plain' if deco == '@pedantic' else 'require_kwargs'
+    if kind == 'sharedkw':          # two different callables: names of A's parameters are keys of B's **kwargs
+        sa = r.choice(['p0: int', "p0: int, p1: str = 'd'", 'p1: int, p0: str', 'p0: List[int]', 'p0: int = 5'])
+        sb = r.choice(['**kwargs: int', 'p2: str, **kwargs: int', '**kwargs: str', '*args: int, **kwargs: int', '**kwargs: List[int]'])
+        def fn(nm, sig, i, dec):
+            return (dec + '\n' if dec else '') + f'{d} {nm}({sig}){ret}:\n    return _BODY({idx * 2 + i}, locals())\n'
+        src = fn(f'a{idx}', sa, 0, deco) + fn(f'b{idx}', sb, 1, deco)
+        twin = fn(f'a{idx}', sa, 0, None) + fn(f'b{idx}', sb, 1, None)
+        callables = [(('mod', f'a{idx}'), k, flav), (('mod', f'b{idx}'), k, flav)]
+        steps = [(0, None)] + [(r.randrange(2), None) for _ in range(r.randint(1, 2))] + [(1, None)]
+    elif kind == 'samename':
+        name = f's{idx}'
+        sa, sb = r.sample(SIG_TEMPLATES, 2)
+        if r.random() < 0.4:       # two same-named methods of two same-named classes
+            def cls(sig, i):
+                first = 'self' + (', ' if sig else '')
+                return f'class S{idx}:\n    {deco}\n    {d} {name}({first}{sig}){ret}:\n        return _BODY({idx * 2 + i}, locals())\n'
+            def tcls(sig, i):
+                first = 'self' + (', ' if sig else '')
+                return f'class S{idx}:\n    {d} {name}({first}{sig}){ret}:\n        return _BODY({idx * 2 + i}, locals())\n'
+            src = cls(sa, 0) + f'S{idx}_first = S{idx}\n' + cls(sb, 1)
+            twin = tcls(sa, 0) + f'S{idx}_first = S{idx}\n' + tcls(sb, 1)
+            mk = 'inst_direct' if deco == '@pedantic' else 'require_kwargs_method'
+            callables = [(('inst', f'S{idx}_first', name), mk, flav), (('inst', f'S{idx}', name), mk, flav)]
+        else:
+            def fn(sig, i, dec):
+                return (dec + '\n' if dec else '') + f'{d} {name}({sig}){ret}:\n    return _BODY({idx * 2 + i}, locals())\n'
+            src = fn(sa, 0, deco) + f'{name}_first = {name}\n' + fn(sb, 1, deco)
+            twin = fn(sa, 0, None) + f'{name}_first = {name}\n' + fn(sb, 1, None)
+            callables = [(('mod', f'{name}_first'), k, flav), (('mod', name), k, flav)]
+        steps = [(r.randrange(2), None) for _ in range(r.randint(3, 5))]
+    else:
+        name = f'm{idx}'
+        ann, dflt, pre = r.choice(MUT_TEMPLATES)
+        pre = [pre[0], f'_D{idx}'] + pre[2:]
+        extra = r.choice(['', 'p0: int, ', "p0: str = 'd', "]) if dflt else ''
+        if extra.endswith("= 'd', "):
+            sig = f"{extra}p1: {ann} = _D{idx}"
+        else:
+            sig = f'{extra}p1: {ann} = _D{idx}'
+        src = f'_D{idx} = {dflt}\n{deco}\n{d} {name}({sig}){ret}:\n    return _BODY({idx * 2}, locals())\n'
+        twin = f'_D{idx} = {dflt}\n{d} {name}({sig}){ret}:\n    return _BODY({idx * 2}, locals())\n'
+        callables = [(('mod', name), k, flav)]
+        n = r.randint(2, 4); at = r.randrange(1, n)
+        steps = [(0, pre if i == at else None) for i in range(n)]
+    return {'src': src, 'twin': twin, 'callables': callables, 'steps': steps, 'skind': kind}
+
+
+def scenario_cases(rng, n, style=None, tag='s'):
+    """n scenarios; every call of a scenario is one case that carries the calls before it as x['history']"""
+    cases = []
+    for idx in range(n):
+        S = gen_scenario(rng, idx)
+        P = OneProgram(S['src'], S['twin'], f'{tag}{idx}_{rng.randrange(10**9)}')
+        history = []
+        try:
+            for (ci, pre) in S['steps']:
+                acc, kind, flav = S['callables'][ci]
+                F = {'flavour': flav, 'kind': kind}
+                apply_pre(P, pre)
+                raw, mode = P.raw_of(F, acc)
+                if raw is None:
+                    break
+                try:
+                    desc = describe(raw, mode)
+                except ValueError:
+                    break
+                st = style if style is not None else rng.choice(['kw', 'kw', 'pos1', 'posall'])
+                pos, kw = gen_call(rng, F, desc, st, bad_range=4, hot=('p0', 'p1') if S['skind'] == 'sharedkw' else ())
+                if S['skind'] == 'mutdefault':                      # the mutated default matters only when the parameter is omitted
+                    kw = [kv for kv in kw if K.name_of(kv[0]) != 'p1']
+                    pos = pos[:len([p for p in desc['params'] if p['kind'] in ('po', 'pk')]) - 1]
+                body = gen_body(rng, desc)
+                impl = execute(P, F, acc, pos, kw, body)
+                implicit = implicit_of(kind, acc)
+                truth = {'realStatic': False, 'realSetter': False, 'realPedantic': True, 'implicit': implicit}
+                mbody = ['raises', 0] if body[0] == 'raises' else body
+                step = {'access': list(acc), 'kind': kind, 'flavour': flav, 'pos': pos, 'kwv': kw, 'body': body, 'pre': pre}
+                cases.append({'m': 'calllayer',
+                              'c': {'env': K.env_json(), 'fn': desc, 'truth': truth,
+                                    'args': ([["inst", K.IDX[K.U]]] if implicit else []) + pos, 'kw': kw, 'body': mbody},
+                              'x': dict(step, src=S['src'], twin=S['twin'], implicit=implicit, needle=None, history=list(history),
+                                        scenario=S['skind'], _impl=impl)})
+                history.append(step)
+        finally:
+            P.close()
+    return cases
 
 
 def norm_out(o):
